@@ -162,6 +162,20 @@ Theorem C10_series_refines : forall o a b ia ib,
 Proof. exact (series_refines c10_cfgs). Qed.
 Print Assumptions C10_series_refines.
 
+(* IndexHierarchy.equals of the source decides by identity, class, shape, name and then the walk over the levels
+   (M_hier_equals); it never consults the cached label table, whose freshness depends on what was read before
+   (re-extracted on every run: a fast path added there breaks this theorem) *)
+Theorem C10_hier_equals_walks_levels :
+  c10_hier_reads_cached_table = false /\
+  c10_hier_equals_steps =
+    ["if id(other) == id(self)";
+     "if compare_class and self.__class__ != other.__class__ | elif not isinstance(other, IndexHierarchy)";
+     "if self.shape != other.shape";
+     "if compare_name and self.name != other.name";
+     "return self._levels.equals(other._levels, compare_name, compare_dtype, compare_class, skipna)"]%string.
+Proof. exact (conj eq_refl eq_refl). Qed.
+Print Assumptions C10_hier_equals_walks_levels.
+
 (* HE variants: == is equals with the keyword constants of the source; it is symmetric; equal
    containers hash the same labels; the model of __hash__ hashes exactly that key *)
 Theorem C10_he_options_in_source :
